@@ -40,7 +40,7 @@ def spell(seed: int):
 
 
 def make_cfg(name, seed=0, width="narrow", copies=True, moves=True, req=False, routes=("abs",), max_containers=3,
-             kind="ih5", attr_keys=1, bad=False):
+             kind="ih5", attr_keys=1, bad=False, values=False, relcm=False):
     a, b, c, k = spell(seed)
     if width == "narrow":
         paths = [f"/{a}", f"/{a}/{a}", f"/{b}"]
@@ -60,6 +60,17 @@ def make_cfg(name, seed=0, width="narrow", copies=True, moves=True, req=False, r
         ops += [["del", p, r] for p in paths]
     if bad:
         ops += [["setbad", p, "abs"] for p in paths]
+    if values:
+        # (the marker value np.void(b"\x7f") itself is the one documented exception and is not a legal value)
+        kinds = ["void1", "void2", "void7e", "int8_127", "uint8_127", "bytes7f", "empty", "str"]
+        ops += [["setv", p, "abs", kd] for p in paths[:2] for kd in kinds]
+        ops += [["sav", n, keys[0], kd] for n in nodes[:2] for kd in kinds[:6]]
+    if relcm:
+        # copy/move issued on a sub-group with source and destination both relative to it
+        par = paths[0]
+        leaf = paths[1].split("/")[-1]
+        ops += [[kk, par, leaf, dst] for kk in ("cpr", "mvr") for dst in (c, b, f"{c}/{b}")]
+        ops += [[kk, "/", par.strip("/"), dst] for kk in ("cpr", "mvr") for dst in (c,)]
     ops += [["sa", n, kk, "abs"] for n in nodes for kk in keys]
     ops += [["da", n, kk, "abs"] for n in nodes for kk in keys]
     if req:
